@@ -580,5 +580,7 @@ fn main() {
             f => f.clone(),
         },
     );
+    vc_ops::classes::record_operator_coverage(&mut ck, "op:", "operators_layout_varied");
+    vc_ops::classes::record_operator_coverage(&mut ck, "op-nt:", "operators_layout_varied_nontrivially");
     ck.finish();
 }
